@@ -17,8 +17,9 @@ Record mstate := {
   m_curs : list (nat * cursor);     (* cursor id -> cursor *)
   m_clock : N;                      (* the logical clock: timestamp given to commit-time writes *)
   m_versioning : bool;
+  m_ckpts : list (nat * history);   (* checkpoints: the committed history they hold *)
 }.
-Definition m0 : mstate := {| m_hist := []; m_txns := []; m_curs := []; m_clock := 0; m_versioning := false |}.
+Definition m0 : mstate := {| m_hist := []; m_txns := []; m_curs := []; m_clock := 0; m_versioning := false; m_ckpts := [] |}.
 
 Inductive resp :=
 | ROk
@@ -35,8 +36,8 @@ Fixpoint assoc_set {A} (i : nat) (a : A) (l : list (nat * A)) : list (nat * A) :
 Fixpoint assoc_del {A} (i : nat) (l : list (nat * A)) : list (nat * A) :=
   match l with [] => [] | (j, b) :: r => if Nat.eqb i j then r else (j, b) :: assoc_del i r end.
 
-Definition with_txns (s : mstate) (t : list (nat * txn)) := {| m_hist := m_hist s; m_txns := t; m_curs := m_curs s; m_clock := m_clock s; m_versioning := m_versioning s |}.
-Definition with_curs (s : mstate) (c : list (nat * cursor)) := {| m_hist := m_hist s; m_txns := m_txns s; m_curs := c; m_clock := m_clock s; m_versioning := m_versioning s |}.
+Definition with_txns (s : mstate) (t : list (nat * txn)) := {| m_hist := m_hist s; m_txns := t; m_curs := m_curs s; m_clock := m_clock s; m_versioning := m_versioning s; m_ckpts := m_ckpts s |}.
+Definition with_curs (s : mstate) (c : list (nat * cursor)) := {| m_hist := m_hist s; m_txns := m_txns s; m_curs := c; m_clock := m_clock s; m_versioning := m_versioning s; m_ckpts := m_ckpts s |}.
 Definition set_txn (s : mstate) (i : nat) (t : txn) := with_txns s (assoc_set i t (m_txns s)).
 
 Definition mutable (m : mode) : bool := match m with RO => false | _ => true end.
@@ -58,6 +59,9 @@ Inductive cmd :=
 | GetAt (id : nat) (key : bytes) (T : N)
 | History (id : nat) (lo hi : option bytes) (tomb : bool) (r : option (N * N)) (limit : option nat) (backward : bool)
 | HistoryTsFirst (id : nat) (lo hi : option bytes) (tomb : bool) (r : option (N * N)) (limit : option nat) (backward : bool)
+| Checkpoint (c : nat)                (* taken while no commit is in flight *)
+| Restore (c : nat)                   (* back to the checkpointed state; open transactions and cursors end *)
+| CkptScan (c : nat)                  (* the checkpoint directory opened as a database of its own: full scan *)
 | Physical                            (* rotate / flush / compact: no effect *)
 | Reopen.                             (* clean close + open: open transactions and cursors end *)
 
@@ -137,7 +141,7 @@ Definition step (s : mstate) (c : cmd) : mstate * resp :=
                                             then {| b_kind := b_kind w; b_key := b_key w; b_val := b_val w; b_ts := m_clock s |}
                                             else w) (ws_batch (t_ws t)) in
                let s1 := {| m_hist := m_hist s ++ [stamped]; m_txns := m_txns s; m_curs := m_curs s;
-                            m_clock := m_clock s; m_versioning := m_versioning s |} in
+                            m_clock := m_clock s; m_versioning := m_versioning s; m_ckpts := m_ckpts s |} in
                (set_txn s1 id {| t_mode := t_mode t; t_closed := true; t_snap := t_snap t;
                                  t_ws := {| ws_map := []; ws_savepoints := ws_savepoints (t_ws t); ws_seqno := ws_seqno (t_ws t) |} |}, ROk)
            end
@@ -176,8 +180,8 @@ Definition step (s : mstate) (c : cmd) : mstate * resp :=
            | _ => let l := range_view (txn_view s t) lo hi in (s, RList (if backward then rev l else l))
            end
     end
-  | SetClock t => ({| m_hist := m_hist s; m_txns := m_txns s; m_curs := m_curs s; m_clock := t; m_versioning := m_versioning s |}, ROk)
-  | SetVersioning b => ({| m_hist := m_hist s; m_txns := m_txns s; m_curs := m_curs s; m_clock := m_clock s; m_versioning := b |}, ROk)
+  | SetClock t => ({| m_hist := m_hist s; m_txns := m_txns s; m_curs := m_curs s; m_clock := t; m_versioning := m_versioning s; m_ckpts := m_ckpts s |}, ROk)
+  | SetVersioning b => ({| m_hist := m_hist s; m_txns := m_txns s; m_curs := m_curs s; m_clock := m_clock s; m_versioning := b; m_ckpts := m_ckpts s |}, ROk)
   | GetAt id key T =>
     match assoc_get id (m_txns s) with
     | None => (s, RErr ENoTxn)
@@ -218,6 +222,20 @@ Definition step (s : mstate) (c : cmd) : mstate * resp :=
     | None => (s, RErr ENoTxn)
     | Some t => (s, RHist (spec_history_tsfirst (m_hist s) (t_snap t) lo hi tomb r limit backward))
     end
+  | Checkpoint c =>
+    ({| m_hist := m_hist s; m_txns := m_txns s; m_curs := m_curs s; m_clock := m_clock s;
+        m_versioning := m_versioning s; m_ckpts := assoc_set c (m_hist s) (m_ckpts s) |}, ROk)
+  | Restore c =>
+    match assoc_get c (m_ckpts s) with
+    | None => (s, RErr ENoTxn)
+    | Some h => ({| m_hist := h; m_txns := []; m_curs := []; m_clock := m_clock s;
+                    m_versioning := m_versioning s; m_ckpts := m_ckpts s |}, ROk)
+    end
+  | CkptScan c =>
+    match assoc_get c (m_ckpts s) with
+    | None => (s, RErr ENoTxn)
+    | Some h => (s, RList (view h (length h)))
+    end
   | Physical => (s, ROk)
-  | Reopen => ({| m_hist := m_hist s; m_txns := []; m_curs := []; m_clock := m_clock s; m_versioning := m_versioning s |}, ROk)
+  | Reopen => ({| m_hist := m_hist s; m_txns := []; m_curs := []; m_clock := m_clock s; m_versioning := m_versioning s; m_ckpts := m_ckpts s |}, ROk)
   end.
